@@ -202,7 +202,18 @@ def popn(ev):
     seq = ("payload", cr) if cr else None
     if into is not None:
         seq = ("app", "collected", (lit(ev["eff"].get("loop")),))
-    return {"n": f.get("end"), "seq": seq, "order": "pop"}
+    coll = ("app", "collected", (lit(ev["eff"].get("loop")),))
+    return {"n": f.get("end"), "seq": seq, "order": "pop", "alts": [x for x in (seq, coll) if x is not None]}
+
+
+def canon_seq(pn, t):
+    """rewrite either spelling of the popped sequence (`payload(<collect result>)` after a `.map`, `collected(loop)`
+    after a `?`) to pn['seq'] inside term t"""
+    if t in pn["alts"]:
+        return pn["seq"]
+    if isinstance(t, tuple):
+        return tuple(canon_seq(pn, x) if isinstance(x, tuple) else x for x in t)
+    return t
 
 
 def strip_cast(t):
@@ -436,14 +447,14 @@ def row_call_function(fx, p, evs, R):
     pn = popn(fe[0])
     if R.need(pn is not None, "arguments are not popped as one counted sequence"):
         R.need(strip_cast(pn["n"]) == fld(("var", "arguments"), "0"), "number of popped values is not the instruction's arity")
-        rev = [e for e in evs if e["e"] == "reverse" and e["val"] == pn["seq"]]
+        rev = [e for e in evs if e["e"] == "reverse" and e["val"] in pn["alts"]]
         R.need(len(rev) % 2 == 1, "popped arguments are not restored to push (call) order before they enter the frame")
         fr = fp[0]["val"]
         f = dict(fr[3]) if fr[0] == "ctor" else {}
         locs = f.get("locals")
         nl = ("app", "cast", (lit("usize"), fld(("app", "proj", (m, lit("Method"), lit("locals"))), "0")))
         want = ("app", "concat", (pn["seq"], ("app", "vec_repeat", (NULLP, nl))))
-        R.need(locs == want, "frame is not [arguments…] ++ null×locals: %s" % fmt_term(locs)[:200])
+        R.need(locs is not None and canon_seq(pn, locs) == canon_seq(pn, want), "frame is not [arguments…] ++ null×locals: %s" % fmt_term(locs)[:200])
         ra = f.get("return_address")
         bump_i = sk.index("ip_bump") if "ip_bump" in sk else 99
         R.need(ra is not None and ra[0] == "sym" and ra[2] == "ip_after_bump" and bump_i < sk.index("frame_push"), "return address is not the instruction after the call")
@@ -465,10 +476,10 @@ def row_call_method(fx, p, evs, R):
     if R.need(pn is not None, "arguments are not popped as one counted sequence"):
         n = strip_cast(pn["n"])
         R.need(n == ("app", "sub", (("app", "cast", (lit("usize"), fld(("var", "arguments"), "0"))), lit(1))), "pops %s values, expected arity - 1" % fmt_term(n))
-        rev = [e for e in evs if e["e"] == "reverse" and e["val"] == pn["seq"]]
+        rev = [e for e in evs if e["e"] == "reverse" and e["val"] in pn["alts"]]
         R.need(len(rev) % 2 == 1, "popped arguments are not restored to push (call) order")
         a = dp[0]["args"]
-        R.need(a[2] == pops[0]["val"] and a[3] == cs[1] and a[4] == pn["seq"], "dispatch does not receive (receiver = last popped, operand's name, arguments in call order)")
+        R.need(a[2] == pops[0]["val"] and a[3] == cs[1] and a[4] in pn["alts"], "dispatch does not receive (receiver = last popped, operand's name, arguments in call order)")
     R.need(any((fmt_term(c).startswith("eq(cast('usize', field(arguments, '0')), 0)") and not val) or ("gt(" in fmt_term(c) and val) for c, val in assumes(p["eff"])),
            "arity 0 (no receiver) is not rejected")
 
@@ -483,8 +494,14 @@ def row_print(fx, p, evs, R):
     pn = popn(fes[0])
     if R.need(pn is not None, "arguments are not popped as one counted sequence"):
         R.need(strip_cast(pn["n"]) == fld(("var", "arguments"), "0"), "number of popped values is not the instruction's arity")
-        rev = [e for e in evs if e["e"] == "reverse" and e["val"] == pn["seq"]]
-        R.need(len(rev) % 2 == 0, "argument list must stay in pop order because placeholders take arguments with pop()")
+        rev = [e for e in evs if e["e"] == "reverse" and e["val"] in pn["alts"]]
+        modes = take_modes(p["eff"])
+        if modes <= {"back"}:
+            R.need(len(rev) % 2 == 0, "argument list must stay in pop order because placeholders take arguments from its back")
+        elif modes == {"front"}:
+            R.need(len(rev) % 2 == 1, "argument list must be restored to call order because placeholders take arguments from its front")
+        else:
+            R.need(False, "placeholders take arguments from the list in an unrecognised way (%s)" % sorted(modes))
     it = fes[1]["iter"]
     R.need(it[0] == "iter" and it[2] == "fwd" and it[1] == ("app", "chars", (cs[1],)) if cs else False, "format is not scanned forwards character by character")
     pu = [e for e in evs if e["e"] == "push"]
@@ -685,6 +702,51 @@ def _recv_mentions(effs, e, text):
     for c in _all_effects(effs):
         if c["k"] == "call" and c.get("res") == v and len(c["args"]) > 1:
             return text in fmt_term(c["args"][1])
+    return False
+
+
+def take_modes(effs):
+    """How a handler takes values out of a local (non operand-stack) sequence: 'back' (Vec::pop, next on a reversed
+    iterator, next_back), 'front' (next on a forward iterator, remove(0)). Returns the set of modes seen."""
+    modes = set()
+    for c in _all_effects(effs):
+        if c["k"] != "call" or len(c["args"]) < 2:
+            continue
+        s = suffix(c)
+        recv = c["args"][1]
+        if "operand_stack" in fmt_term(recv):
+            continue
+        if s == "pop" and len(c["args"]) == 2:
+            modes.add("back")
+        elif s in ("next", "next_back") and isinstance(recv, tuple) and recv and recv[0] == "iter":
+            fwd = recv[2] == "fwd"
+            modes.add("front" if fwd == (s == "next") else "back")
+        elif s == "remove" and len(c["args"]) == 3:
+            modes.add("front" if c["args"][2] == lit(0) else "?")
+        elif s in ("pop_front",):
+            modes.add("front")
+        elif s in ("pop_back",):
+            modes.add("back")
+    return modes
+
+
+def nonempty_assumed(cond, val):
+    """does assuming `cond == val` mean 'a sequence still has elements'?  (is_empty / len compared with 0)"""
+    s = fmt_term(cond)
+    neg = False
+    while s.startswith("not("):
+        s = s[4:-1]
+        neg = not neg
+    truth = (val == TRUE) != neg
+    if s.startswith("is_empty("):
+        return not truth
+    for op, when in (("ne(len(", True), ("gt(len(", True), ("ge(len(", None), ("eq(len(", False), ("le(len(", False), ("lt(len(", None)):
+        if s.startswith(op) and s.endswith(", 0)") and when is not None:
+            return truth == when
+    if s.startswith("ge(len(") and s.endswith(", 1)"):
+        return truth
+    if s.startswith("lt(len(") and s.endswith(", 1)"):
+        return not truth
     return False
 
 
